@@ -12,6 +12,7 @@ require (
 	github.com/cosmos/cosmos-sdk v0.47.8
 	github.com/ethereum/go-ethereum v1.13.5-0.20231027145059-2d7dba024d76
 	github.com/evmos/evmos/v16 v16.0.0
+	github.com/prysmaticlabs/prysm/v4 v4.2.1
 	pgregory.net/rapid v1.3.0
 )
 
@@ -149,7 +150,6 @@ require (
 	github.com/prometheus/tsdb v0.10.0 // indirect
 	github.com/prysmaticlabs/fastssz v0.0.0-20221107182844-78142813af44 // indirect
 	github.com/prysmaticlabs/gohashtree v0.0.3-alpha // indirect
-	github.com/prysmaticlabs/prysm/v4 v4.2.1 // indirect
 	github.com/rakyll/statik v0.1.7 // indirect
 	github.com/rcrowley/go-metrics v0.0.0-20201227073835-cf1acfcdf475 // indirect
 	github.com/rivo/uniseg v0.4.4 // indirect
